@@ -24,7 +24,10 @@ Pool / history format (plain JSON, integers are identities):
   history = {"ops":[["construct",slot,did],["encode",slot],["twice",slot],["drop",slot],["lookup",name],
                     ["measure",{"text":..,"font":..,"font_size":..,"unit":..,"dpi":..}],        (public get_string_width)
                     ["fs",{"ev":"write|replace|delete|rename|chdir|touch","d":dir,"n":name id,"c":image id,..}],
-                    ["recreate",cid]..],               (a new, equal-valued component object takes the place of cid)
+                    ["recreate",cid],                  (a new, equal-valued component object takes the place of cid)
+                    ["attempt",did]..],                (`RTFDocument(...)` of a pool document the library refuses: the
+                                                        exception is caught and recorded; a document spec may carry
+                                                        "body_arg": [cid..] | {"single": cid} = what is passed as rtf_body)
              "target":did, "reuse":slot|null, "target_twice":bool}
 A pool with a "figfs" entry (`{"ndirs":3,"cwd":dir,"names":[..],"images":[hex..],"files":[[dir,name id,image id]..]}`)
 runs in a directory tree of its own: <root>/d0 … with the listed image files, the process starts in <root>/d<cwd>.
@@ -221,6 +224,9 @@ def doc_component_ids(dd):
         else:
             ids += [x for sec in h["nested"] for x in sec if x is not None]
     ids += [dd[k] for k in OTHER_KEYS if dd.get(k) is not None]
+    ba = dd.get("body_arg")
+    if ba is not None:
+        ids += [ba["single"]] if isinstance(ba, dict) else list(ba)
     return ids
 
 
@@ -234,6 +240,10 @@ def build_doc(dd, comps, frames):
     elif dd["kind"] == "single":
         kw["df"] = frames[dd["secs"][0][0]]
         kw["rtf_body"] = comps[dd["secs"][0][1]]
+    if dd.get("body_arg") is not None:
+        # what is passed as `rtf_body=` instead of one body per section (a list of another length, a bare object)
+        ba = dd["body_arg"]
+        kw["rtf_body"] = comps[ba["single"]] if isinstance(ba, dict) else [comps[b] for b in ba]
     h = dd["headers"]
     if h != "default":
         if "flat" in h:
@@ -421,12 +431,21 @@ def run_history(task):
         fdig0 = [frame_digest(f) for f in frames]
         heap0 = [snapshot(o, c["cls"]) for o, c in zip(comps, pool["components"])]
         live = {}
+        kept = []
         obs = []
         for op in hist["ops"]:
             kind = op[0]
             if kind == "construct":
                 try:
                     live[op[1]] = build_doc(pool["docs"][op[2]], comps, frames)
+                    obs.append(dict(kind=kind, ok=True))
+                except Exception as e:  # noqa: BLE001
+                    obs.append(dict(kind=kind, ok=False, cls=exc_class(e), msg=str(e)[:200]))
+            elif kind == "attempt":
+                # `RTFDocument(...)` on a combination of arguments the library refuses: the exception is the caller's to
+                # catch; the objects it passed are still the caller's
+                try:
+                    kept.append(build_doc(pool["docs"][op[1]], comps, frames))
                     obs.append(dict(kind=kind, ok=True))
                 except Exception as e:  # noqa: BLE001
                     obs.append(dict(kind=kind, ok=False, cls=exc_class(e), msg=str(e)[:200]))
